@@ -55,6 +55,7 @@ func checkC02(w *World, r *Report) {
 	r.Rule("C02.boundaries", "P7", "ordering tables: Mint before StartTime has no effect; hand-over: no EndTime or now before it => stay, now after it => history + successor; LinearMinting: now before start => zero, now after end => the full Amount; ExponentialStepMinting: now after end => the computation uses end and no returned value depends on the block time (origins restricted to live edges)", 15)
 	r.Rule("C02.carry", "P6", "successor state: SequenceId = old+1, AmountMinted = 0, RemainderFromPreviousMinter = fractional part of this period's total (not a constant); the history entry is the old state after its own update; the amount returned upward = minted(successor) + amount", 5)
 	r.Rule("C02.units", "P9", "units of measure over SSA: in the two schedule formulas every sum, difference, comparison and merge combines values of the same time scale (ns / ms / s are distinct units), conversions to Duration and Time.Add receive ns, and the amount returned is a pure number (amount x time / time in one scale) - so the result cannot depend on the scale or on sub-unit truncation of one operand only", 2)
+	r.Rule("C02.params", "P6", "the exponential schedule and its inflation formula multiply the step amount by the configured AmountMultiplier itself: every factor that can be that field is that field on every alternative (phi, results of a helper) - no default or fallback value substituted under a condition", 2)
 	r.Rule("C02.select", "P7", "the shared selection function picks the current period and its predecessor by sequence id over all configured periods: per iteration, current := candidate exactly when the ids are equal, previous := candidate exactly when the candidate's id is below the current id and above the previous candidate's (ordering table over the three ids and the nil-ness of the previous candidate); nothing else is assigned, the loop has no early exit, the loop-carried values are returned", 18)
 	r.Rule("C02.start", "P6", "period start = params.StartTime when there is no predecessor, the predecessor's EndTime otherwise; current and predecessor are the two results of one call on (params.Minters, state); emission and inflation obtain them from the same function", 4)
 	if !ro.checkFloors(r) {
@@ -452,6 +453,44 @@ func checkC02(w *World, r *Report) {
 	minterSelectRule(w, r, "C02.select")
 	// ---------- C02.start ----------
 	periodStartRule(w, r, "C02.start", []*ssa.Function{mint, infl})
+	// ---------- C02.params ----------
+	// the schedule formulas use the configured parameters themselves: a factor that can be the period's AmountMultiplier
+	// is that field on every alternative (phi, helper results) - no default substituted under a condition (a multiplier
+	// of zero is a valid configuration: "the first step's amount, then nothing")
+	{
+		n := 0
+		for _, a := range []string{"x/cfeminter/types.ExponentialStepMinting.AmountToMint", "x/cfeminter/types.ExponentialStepMinting.CalculateInflation"} {
+			fn := w.Func(a)
+			if fn == nil {
+				r.Unk("infra.anchor", a, "", "anchor not found")
+				continue
+			}
+			k := 0
+			for _, e := range w.effectsBelow(fn, func(x *Site) bool { return strings.HasSuffix(x.CalleeName(), "types.Dec.Mul") }, 2) {
+				args := e.Site.Common().Args
+				if len(args) != 2 {
+					continue
+				}
+				alts := w.LiveValuesDeep(e.Site.Caller, func(ssa.Value) (bool, bool) { return false, false }, args[1], 2)
+				isField := func(v ssa.Value) bool { return loadOfField(v, "AmountMultiplier", nil) }
+				some, all := false, true
+				for _, dv := range alts {
+					if isField(dv.V) || isField(dv.Root) {
+						some = true
+					} else {
+						all = false
+					}
+				}
+				if !some {
+					continue
+				}
+				k++
+				n++
+				r.Check(all, "C02.params", fmt.Sprintf("%s: multiplication #%d by the period's AmountMultiplier", funcName(fn), k), w.Pos(e.Site.Instr.Pos()), fmt.Sprintf("%d alternative(s), each the configured field", len(alts)), "under some condition the step amount is multiplied by something else than the configured AmountMultiplier (a default or fallback value): emission leaves the configured schedule for the configurations that meet the condition")
+			}
+		}
+		_ = n
+	}
 	// ---------- C02.units ----------
 	for _, a := range []string{"x/cfeminter/types.LinearMinting.AmountToMint", "x/cfeminter/types.ExponentialStepMinting.AmountToMint"} {
 		fn := w.Func(a)
